@@ -10,8 +10,9 @@ Observed on the real code, for freshly generated python/shell task classes (vp.g
      vp.evlog file records every body / fake-tool invocation, so "rejected before any execution"
      (0 start events) and "accepted tasks really ran" (1 start event) are observed.
 Oracle: vp.ref_rules (written from the statement).  MAY class (statement silent): whether 0, ""
-and a False held by a *required* `bool | None` field count as "set"; both readings are evaluated and
-a case is MAY when they disagree (counted in may_assignments, never a violation).
+and a False held by a *required* `bool | None` field count as "set"; every such occurrence is read both
+ways independently (three-valued evaluation) and an assignment whose outcome depends on a reading is
+MAY (counted in may_assignments with what pydra did, never a violation).
 """
 from __future__ import annotations
 
@@ -141,7 +142,7 @@ def case_batch(case, wctx):
 def run(ctx):
     quick = ctx.tier == "quick"
     rng = ctx.rng("gen")
-    n = 200 if quick else 5000
+    n = 200 if quick else 3000
     specs = [G.gen_spec(rng, idx=i) for i in range(n)]
     for s in specs:
         s.pop("outarg", None)
